@@ -265,8 +265,9 @@ impl ValidIsographTemplateLiteral {
                 PathBuf::from(format!("{}", file_to_artifact.display()).replace('\\', "/"));
         }
 
-        // TODO Identify if this is needed
-        if file_to_artifact.starts_with(ISOGRAPH_FOLDER) {
+        // A relative import must start with "./" or "../", otherwise it is resolved as a
+        // bare module specifier (e.g. "components/__isograph/...").
+        if !file_to_artifact.starts_with("..") {
             file_to_artifact = PathBuf::from(format!("./{}", file_to_artifact.display()));
         }
 
